@@ -162,3 +162,38 @@ theorem foldl_recN (a n : Nat) (G : Nat → Rat → Rat) (stepN : List Rat → N
   exact h
 
 end GeoVerif.Py
+
+namespace GeoVerif.Py
+
+/-- in-place update loop `for i in range(a, a+n): xs[i] = F(i, xs[i])`: every position of the range is updated once, from its own old value -/
+theorem foldl_upd (a n : Nat) (F : Nat → Rat → Rat) (step : List Rat → Int → List Rat) (init : List Rat)
+    (hlen : a + n ≤ init.length)
+    (hstep : ∀ (xs : List Rat) (k : Nat), xs.length = init.length → k < n →
+      step xs ((a : Int) + (k : Int)) = xs.set (a + k) (F (a + k) (xs.getD (a + k) 0))) :
+    ((range (a : Int) ((a : Int) + (n : Int))).foldl step init).length = init.length ∧
+    (∀ j, a ≤ j → j < a + n → ((range (a : Int) ((a : Int) + (n : Int))).foldl step init).getD j 0 = F j (init.getD j 0)) ∧
+    (∀ j, ¬ (a ≤ j ∧ j < a + n) → ((range (a : Int) ((a : Int) + (n : Int))).foldl step init).getD j 0 = init.getD j 0) := by
+  rw [range_nat, List.foldl_map]
+  refine foldl_range_inv
+    (fun m s => s.length = init.length ∧
+      (∀ j, a ≤ j → j < a + m → s.getD j 0 = F j (init.getD j 0)) ∧
+      (∀ j, ¬ (a ≤ j ∧ j < a + m) → s.getD j 0 = init.getD j 0))
+    (fun s k => step s ((a : Int) + (k : Int))) n init ?_ ?_
+  · refine ⟨rfl, ?_, ?_⟩
+    · intro j h1 h2; omega
+    · intro j _; rfl
+  · intro k s hk ⟨hl, hin, hout⟩
+    rw [hstep s k hl hk]
+    refine ⟨by simp [hl], ?_, ?_⟩
+    · intro j h1 h2
+      by_cases hj : j = a + k
+      · subst hj
+        rw [getD_set_self _ _ _ (by omega), hout (a + k) (by omega)]
+      · rw [getD_set_ne _ _ _ _ (by omega)]
+        exact hin j h1 (by omega)
+    · intro j hj
+      have : a + k ≠ j := by omega
+      rw [getD_set_ne _ _ _ _ this]
+      exact hout j (by omega)
+
+end GeoVerif.Py
